@@ -1086,7 +1086,7 @@ func init() {
 		ID: "C12", Level: "exploration", MinNontrivial: 2000,
 		Rule: "lib: a Go value (every representation gojq can emit) -> gojq.Marshal and tojson/@json/tostring/@text/interpolation run by the real VM, each text read by an own scanner and by encoding/json and compared with the value (NaN->null, +-Inf->+-MaxFloat64, invalid UTF-8->U+FFFD allowed), all texts equal after white-space removal, tojson|fromjson identity. " +
 			"cli: batches of values rebuilt inside the real command from a tagged carrier (tonumber, nan, infinite, @base64d) and printed under every output option (combination); outputs split and tokenised by the own scanner, SGR sequences removed by an own stripper, compared with the value, with library Marshal (white-space-free), and with the layout (depth x unit per line, [] and {} inline); --yaml-output | --yaml-input -c compared by value. " +
-			"non-trivial = the value contains a string needing an escape / non-ASCII / invalid UTF-8, a non-integral or special float, a big integer, a number literal, a hard object key or nesting (lib), or additionally any indented multi-line output (cli); distinct by (mode, compact text).",
+			"non-trivial = the value contains a string needing an escape / non-ASCII / invalid UTF-8, a non-integral or special float, a big integer, a number literal, a hard object key or nesting (lib), or additionally any indented multi-line output (cli); distinct by (mode, compact text). Also (kind c12.streams): 2..6 inputs printing 0..3 values each under 9 output modes, all 81 shapes of which of 4 inputs print 0, 1 or 2 values; the stream written is taken apart by an independent reader (--yaml-input for YAML) and must be exactly the values printed.",
 		Assumptions: []string{
 			"encoding/json (UseNumber), strconv, unicode/utf8 and math/big are correct",
 			"the command rebuilds the carried value exactly as the library does (checked: the library result of the same decode filter must equal the intended value, otherwise the case fails as 'delivery')",
